@@ -235,7 +235,9 @@ func (a *Agent) gatherCandidates(ctx context.Context, done chan struct{}) { //no
 			})
 			a.log.Infof("Initialized network monitoring with %d IP addresses", len(addrs))
 		}
-		go a.startNetworkMonitoring(ctx)
+		// The monitor runs on this goroutine: `done` is closed when it has ended, so that
+		// Close waits for a re-gather pass as it waits for the first one.
+		a.startNetworkMonitoring(ctx)
 	}
 }
 
